@@ -37,6 +37,33 @@ def prims():
                 return [(st, "ret", adt(OPT, 0, ()))]
             return [(st, "ret", adt(OPT, 1, (I(r),)))]
         return [(st, "ret", TOP)]
+    def nz_int(v):
+        # NonZero<usize> is read as the integer it wraps (constants arrive as NonZero(Inner(n)))
+        while isinstance(v, tuple) and v and v[0] == "adt" and len(v[3]) == 1:
+            v = v[3][0]
+        return v
+
+    def nz_get(ip, st, args, info):
+        return [(st, "ret", nz_int(args[0]))]
+
+    def nz_new(ip, st, args, info):
+        n = nz_int(args[0])
+        if n[0] != "i":
+            return [(st, "ret", TOP)]
+        return [(st, "ret", adt(OPT, 1, (n,)) if n[1] != 0 else adt(OPT, 0, ()))]
+
+    def nz_sat_add(ip, st, args, info):
+        a, b = nz_int(args[0]), nz_int(args[1])
+        if a[0] == "i" and b[0] == "i":
+            return [(st, "ret", I(min(a[1] + b[1], NULL)))]
+        return [(st, "ret", TOP)]
+
+    def nz_checked_add(ip, st, args, info):
+        a, b = nz_int(args[0]), nz_int(args[1])
+        if a[0] == "i" and b[0] == "i":
+            return [(st, "ret", adt(OPT, 1, (I(a[1] + b[1]),)) if a[1] + b[1] <= NULL else adt(OPT, 0, ()))]
+        return [(st, "ret", TOP)]
+
     def vec_clear(ip, st, args, info):
         r = args[0]
         ip.write(st, r[1], r[2], ("vec", ()))
@@ -67,6 +94,11 @@ def prims():
         "core::ops::index::IndexMut::index_mut": index_mut,
         "core::ops::index::Index::index": index_mut,
         "core::num::<impl usize>::checked_add": checked_add,
+        "core::num::nonzero::NonZero::get": nz_get,
+        "core::num::nonzero::NonZero::new": nz_new,
+        "core::num::nonzero::NonZero::new_unchecked": nz_get,
+        "core::num::nonzero::NonZero::saturating_add": nz_sat_add,
+        "core::num::nonzero::NonZero::checked_add": nz_checked_add,
     }
 
 
@@ -135,11 +167,13 @@ def explore(chk, prog, depth=7, max_live=3, max_handles=3):
         vec = val[3][si]
         items = vec[1] if vec[0] == "vec" else ()
         for (idx, ptr, h) in ghost:
-            ok = idx < len(items) and items[idx][0] == "adt" and items[idx][2] == 1 and items[idx][3][0] == ptr
+            # representation-independent: the slot at the handle's index is a variant that holds the stashed pointer
+            ok = idx < len(items) and items[idx][0] == "adt" and ptr in items[idx][3]
             if not ok:
                 what = items[idx] if idx < len(items) else "missing (table has %d slots)" % len(items)
+                holds_ptr = isinstance(what, tuple) and any(isinstance(x, tuple) and x and x[0] == "obj" for x in what[3])
                 probs.setdefault("a live handle (index %d, %d handle(s)) no longer resolves to its stashed pointer: slot is %s" % (
-                    idx, h, "vacant" if isinstance(what, tuple) and what[2] == 0 else ("another pointer" if isinstance(what, tuple) else what)),
+                    idx, h, ("another pointer" if holds_ptr else "vacant") if isinstance(what, tuple) else what),
                     trail)
     while work:
         val, ghost, trail = work.pop()
@@ -205,10 +239,16 @@ def explore(chk, prog, depth=7, max_live=3, max_handles=3):
 
 def run_tables(chk, prog, config="default", maxlen=3):
     names = [f["name"] for f in prog.all_adts[SLOTS]["variants"][0]["fields"]]
-    if names != ["slots", "next_free"]:
-        # the table constructor below builds states by hand for the reviewed representation; a different
-        # representation is covered by the reachability exploration (slots.explore) alone
-        chk.note("Slots has fields %s: hand-built slot tables skipped, reachability exploration applies" % names)
+    shape = [(v["name"], [f.get("ty_s") for f in v["fields"]]) for v in prog.all_adts[SLOT]["variants"]]
+    link_ty = [f.get("ty_s") for f in prog.all_adts[SLOTS]["variants"][0]["fields"]][-1]
+    reviewed = (names == ["slots", "next_free"] and link_ty in ("usize", "dynamic_roots::Index")
+                and [n for n, _ in shape] == ["Vacant", "Occupied"] and shape[0][1] in (["usize"], ["dynamic_roots::Index"])
+                and len(shape[1][1]) == 2 and shape[1][1][1] == "usize")
+    if not reviewed:
+        # the table constructor below builds states by hand for the reviewed representation (a Vec of
+        # Vacant{next: usize} / Occupied{root, count: usize} and a usize free-list head); any other representation
+        # is covered by the reachability exploration (slots.explore), which builds its states by running the code
+        chk.note("Slots / Slot have the shape %s %s: hand-built slot tables skipped, reachability exploration applies" % (names, shape))
         return
     ip = Interp(prog, prims=prims(), strict=True)
     ip.lenient_std = False
